@@ -1038,6 +1038,229 @@ func history(r *vu.Rng, o *vu.Out, idx int) {
 	w.oracles(o, line, input)
 }
 
+// ---------- long polls: HandleGetMetrics3 + broadcastJournal with several parked clients ----------
+func triples(r *tlmetadata.GetJournalResponsenew) string {
+	if r == nil {
+		return "None"
+	}
+	parts := make([]string, len(r.Events))
+	for i, e := range r.Events {
+		parts[i] = fmt.Sprintf("(%s,%s,%d)", vu.Z(int64(e.EventType)), vu.Z(e.Id), e.Version)
+	}
+	return "(Some [" + strings.Join(parts, ";") + "])"
+}
+
+func pollScenario(r *vu.Rng, o *vu.Out, idx int) {
+	compact := r.Chance(60)
+	// the source's history: metrics, groups and namespaces; some entities saved again unchanged (only version and
+	// update time move), which a compact journal keeps at the older version
+	var src []tlmetadata.Event
+	ver := int64(0)
+	type saved struct {
+		typ  int32
+		name string
+		t    tok
+	}
+	last := map[[2]int64]saved{}
+	nEv := 6 + r.Intn(10)
+	for i := 0; i < nEv; i++ {
+		ver += int64(1 + r.Intn(2))
+		typ := int32(r.Pick(int64(format.MetricEvent), int64(format.MetricEvent), int64(format.MetricsGroupEvent), int64(format.NamespaceEvent), int64(format.DashboardEvent)))
+		id := int64(1 + r.Intn(3))
+		k := [2]int64{int64(typ), id}
+		sv, had := last[k]
+		if !had || r.Chance(45) {
+			sv = saved{typ: typ, name: fmt.Sprintf("p%d_%d_%d", typ, id, r.Intn(2)), t: tok{res: r.Intn(2) * 5}}
+			if typ != format.MetricEvent {
+				sv.t = tok{res: r.Intn(3)}
+			}
+		}
+		last[k] = sv
+		e := tlmetadata.Event{Id: id, Name: sv.name, EventType: typ, Version: ver, UpdateTime: uint32(100 + i), Data: mkData(typ, sv.t)}
+		e.SetNamespaceId(0)
+		src = append(src, e)
+	}
+	k1 := 1 + r.Intn(len(src)-1)
+	k2 := k1 + 1 + r.Intn(len(src)-k1)
+	cp := func(x []tlmetadata.Event) []tlmetadata.Event { return append([]tlmetadata.Event(nil), x...) }
+	input := fmt.Sprintf("poll#%d compact=%v events=%d lagging-aggregator-has=%d then=%d", idx, compact, len(src), k1, k2)
+	line := -1
+	fails := [][2]string{}
+	func() {
+		defer func() {
+			if p := recover(); p != nil {
+				fails = append(fails, [2]string{"no_panic", fmt.Sprintf("%v", p)})
+			}
+		}()
+		// the source journal (plays the metadata engine) and three aggregator journals fed from it at different times
+		S, ahead, lag, late := mj.NewVerifNode(false), mj.NewVerifNode(compact), mj.NewVerifNode(compact), mj.NewVerifNode(compact)
+		feed := func(evs []tlmetadata.Event) {
+			for _, e := range evs {
+				S.Apply([]tlmetadata.Event{e}, e.Version)
+			}
+		}
+		// one request of an aggregator to the source: the batch it applied
+		syncAgg := func(agg *mj.VerifNode, items int) []tlmetadata.Event {
+			_, loader, _, _, _, _ := agg.State()
+			evs, cur := S.Diff(loader, items, unlimited)
+			for i := range evs {
+				evs[i], _ = S.RawEntry(evs[i].EventType, evs[i].Id)
+			}
+			batch := cp(evs)
+			agg.Apply(evs, cur)
+			return batch
+		}
+		feed(src[:k1])
+		batch1 := syncAgg(lag, 1000)
+		syncAgg(ahead, 1000)
+		feed(src[k1:k2])
+		syncAgg(ahead, 1000)
+		// clients: agents that synced from the lagging aggregator (fully or partly), from the other one, or from nowhere
+		nCl := 2 + r.Intn(3)
+		clients := make([]*mj.VerifNode, nCl)
+		kinds := make([]string, nCl)
+		syncFrom := func(c, up *mj.VerifNode, items int) {
+			_, loader, _, _, _, _ := c.State()
+			evs, cur := up.Diff(loader, items, unlimited)
+			for i := range evs {
+				evs[i] = wire(evs[i])
+			}
+			c.Apply(evs, cur)
+		}
+		for i := range clients {
+			clients[i] = mj.NewVerifNode(false)
+			switch x := (i + r.Intn(2)) % 4; x {
+			case 0:
+				syncFrom(clients[i], lag, 1000)
+				kinds[i] = "insync"
+			case 1:
+				syncFrom(clients[i], ahead, 1000)
+				kinds[i] = "ahead"
+			case 2:
+				syncFrom(clients[i], lag, 1+r.Intn(2))
+				kinds[i] = "behind"
+			default:
+				kinds[i] = "fresh"
+			}
+		}
+		conn := mj.NewVerifPollConn()
+		from := make([]int64, nCl)
+		imm := make([]*tlmetadata.GetJournalResponsenew, nCl)
+		del := make([]*tlmetadata.GetJournalResponsenew, nCl)
+		check := func(i int, resp *tlmetadata.GetJournalResponsenew) {
+			prev := from[i]
+			for _, e := range resp.Events {
+				if e.Version <= prev {
+					fails = append(fails, [2]string{"response_only_newer_events", fmt.Sprintf("client=%d(%s) from=%d got version %d", i, kinds[i], from[i], e.Version)})
+					break
+				}
+				prev = e.Version
+			}
+			clients[i].Apply(cp(resp.Events), resp.CurrentVersion)
+		}
+		for i, c := range clients {
+			_, from[i], _, _, _, _ = c.State()
+			resp, _, err := lag.Poll(conn, int64(i+1), from[i])
+			if err != nil {
+				panic(err)
+			}
+			imm[i] = resp
+		}
+		batch2 := syncAgg(lag, int(r.Pick(1, 2, 1000))) // applyUpdate -> broadcastJournal; often only part of what it lacks
+		for i := range clients {
+			resp, _, err := conn.Delayed(int64(i+1), from[i])
+			if err != nil {
+				panic(err)
+			}
+			del[i] = resp
+		}
+		pcs := make([]string, nCl)
+		for i := range clients {
+			pcs[i] = fmt.Sprintf("PC %d %s %s", from[i], triples(imm[i]), triples(del[i]))
+		}
+		evTerms := func(x []tlmetadata.Event) string {
+			p := make([]string, len(x))
+			for i, e := range x {
+				p[i] = evTerm(e)
+			}
+			return "[" + strings.Join(p, ";") + "]"
+		}
+		term := fmt.Sprintf("CPoll %s %s %s %d %d [%s]", vu.B(compact), evTerms(batch1), evTerms(batch2), data_model.MaxJournalItemsSent, data_model.MaxJournalBytesSent, strings.Join(pcs, "; "))
+		input += " clients=" + strings.Join(kinds, ",")
+		hasAhead, hasSync := false, false
+		for _, k := range kinds {
+			hasAhead = hasAhead || k == "ahead"
+			hasSync = hasSync || k == "insync" || k == "behind"
+		}
+		line = o.Case(input, term, hasAhead && hasSync, "poll")
+		// apply what each client was sent (this is where a wrong response breaks the client's journal)
+		for i := range clients {
+			if imm[i] != nil {
+				check(i, imm[i])
+			}
+			if del[i] != nil {
+				check(i, del[i])
+			}
+		}
+		// the lagging aggregator catches up; every client polls until it is parked; then all must agree
+		feed(src[k2:])
+		for i := 0; i < 50 && len(syncAgg(lag, 1000)) > 0; i++ {
+		}
+		syncAgg(ahead, 1000)
+		syncAgg(late, 1000) // an aggregator that starts from scratch now
+		q := int64(100)
+		for i, c := range clients {
+			for round := 0; round < 50; round++ {
+				_, from[i], _, _, _, _ = c.State()
+				q++
+				resp, parked, err := lag.Poll(conn, q, from[i])
+				if err != nil {
+					panic(err)
+				}
+				if parked {
+					break
+				}
+				check(i, resp)
+			}
+		}
+		lagE, _, _ := lag.Entries()
+		byKey := map[[2]int64]tlmetadata.Event{}
+		for _, e := range lagE {
+			byKey[[2]int64{int64(e.EventType), e.Id}] = wire(e)
+		}
+		_, _, _, h0, l0, _ := clients[0].State()
+		for i, c := range clients {
+			a, _, _ := c.Entries()
+			bad := len(a) != len(lagE)
+			for _, e := range a {
+				x, ok := byKey[[2]int64{int64(e.EventType), e.Id}]
+				if !ok || !mj.VerifEqualNoVersion(x, e) {
+					bad = true
+				}
+			}
+			if bad {
+				fails = append(fails, [2]string{"agent_has_upstream_latest", fmt.Sprintf("client=%d(%s)", i, kinds[i])})
+			}
+			if _, _, _, h, l, _ := c.State(); h != h0 || l != l0 {
+				fails = append(fails, [2]string{"replicas_same_hash", fmt.Sprintf("clients 0 and %d(%s)", i, kinds[i])})
+			}
+		}
+		// two aggregator journals of the same source with different delivery histories
+		_, _, _, ha, la, _ := ahead.State()
+		_, _, _, hl, ll, _ := lag.State()
+		_, _, _, ht, lt, _ := late.State()
+		if ha != hl || la != ll || ht != hl || lt != ll {
+			fails = append(fails, [2]string{"replicas_same_hash", fmt.Sprintf("aggregator journals (compact=%v) of one source with different delivery histories", compact)})
+		}
+	}()
+	if line < 0 {
+		line = o.Case(input+" PANIC", "CConsts []", false, "panic")
+	}
+	for _, f := range fails {
+		o.Fail(f[0], line, f[1]+" "+input)
+	}
+}
+
 // ---------- the recorded finding's witness, replayed on the real code ----------
 func metricEv(id int64, name string, ver int64, data string) tlmetadata.Event {
 	return tlmetadata.Event{Id: id, Name: name, EventType: format.MetricEvent, Version: ver, Data: data}
@@ -1112,5 +1335,8 @@ func main() {
 			debugOp = dop
 		}
 		history(r, o, i)
+		if i%2 == 0 {
+			pollScenario(r, o, i)
+		}
 	}
 }
